@@ -360,3 +360,30 @@ def sim_wait(fs, timeout=None, return_when='ALL_COMPLETED'):
     from collections import namedtuple
     R = namedtuple('DoneAndNotDoneFutures', 'done not_done')
     return R(done, set(fs) - done)
+
+
+def install(package='static_frame'):
+    '''Rebind every name in the package that is bound to a concurrent.futures executor class or to as_completed /
+    wait to the simulated counterpart; returns the undo list for uninstall().'''
+    import sys
+    import concurrent.futures as cf
+    table = {cf.ThreadPoolExecutor: SimThreadPoolExecutor, cf.ProcessPoolExecutor: SimProcessPoolExecutor,
+             cf.as_completed: sim_as_completed, cf.wait: sim_wait}
+    saved = []
+    for name, mod in sorted(sys.modules.items()):
+        if mod is None or not (name == package or name.startswith(package + '.')):
+            continue
+        for attr, val in list(vars(mod).items()):
+            if not (isinstance(val, type) or callable(val)) or not str(getattr(val, '__module__', '') or '').startswith('concurrent.futures'):
+                continue
+            rep = table.get(val)
+            if rep is not None:
+                saved.append((mod, attr, val))
+                setattr(mod, attr, rep)
+    return saved
+
+
+def uninstall(saved):
+    for mod, attr, val in saved:
+        setattr(mod, attr, val)
+    CURRENT['sim'] = None
